@@ -80,6 +80,16 @@ def family():
         "hop": lambda o, N, Dg: Dg(o["c"]) * o["d"] + Dg(o["d"]) * o["c"],
         "xhop": lambda o, N, Dg: (o["a"] + Dg(o["a"])) * (Dg(o["c"]) * o["d"] + Dg(o["d"]) * o["c"]),
     })
+    F["spinfermion"] = (("s", "c", "d"), lambda o, N, Dg: R(8, 5) * N["s"] + N["c"] + R(5, 2) * N["d"] + R(1, 3) * N["c"] * N["d"] + R(2, 7) * N["s"] * N["d"], {
+        "sc": lambda o, N, Dg: Dg(o["s"]) * o["c"] + Dg(o["c"]) * o["s"],
+        "hop": lambda o, N, Dg: Dg(o["c"]) * o["d"] + Dg(o["d"]) * o["c"],
+        "sxpair": lambda o, N, Dg: (o["s"] + Dg(o["s"])) * (o["c"] * o["d"] + Dg(o["d"]) * Dg(o["c"])),
+    })
+    F["bosonspinfermion"] = (("a", "s", "c"), lambda o, N, Dg: N["a"] + N["a"] ** 2 / 10 + R(8, 5) * N["s"] + R(9, 4) * N["c"] + R(1, 3) * N["s"] * N["c"], {
+        "sc": lambda o, N, Dg: Dg(o["s"]) * o["c"] + Dg(o["c"]) * o["s"],
+        "ac": lambda o, N, Dg: Dg(o["a"]) * o["c"] + Dg(o["c"]) * o["a"],
+        "xs": lambda o, N, Dg: (o["a"] + Dg(o["a"])) * (o["s"] + Dg(o["s"])),
+    })
     F["ladderfermion"] = (("l", "c"), lambda o, N, Dg: N["l"] + N["l"] ** 2 / 11 + R(9, 4) * N["c"], {
         "lc": lambda o, N, Dg: Dg(o["l"]) * o["c"] + Dg(o["c"]) * o["l"],
         "x": lambda o, N, Dg: o["l"] + Dg(o["l"]),
@@ -96,7 +106,7 @@ def cases(tier, seed):
         maxsub = 2 if qk else 3
         for r in range(1, maxsub + 1):
             for sub in itertools.combinations(tnames, r):
-                if qk and r == 2 and name in ("holstein", "fermion3", "boson2") and sub != tuple(tnames[:2]):
+                if qk and r == 2 and name in ("holstein", "fermion3", "boson2", "bosonspinfermion") and sub != tuple(tnames[:2]):
                     continue
                 out.append(dict(kind="scalar", model=name, terms=list(sub), order=2 if (qk or len(modes) > 2) else 3, mask=None))
     # operator-valued masks (scalar input)
